@@ -17,16 +17,16 @@ from tools.vlib import Outcome, sx
 from tools.props import c05_types as T
 
 MANIFEST = {
-    "level_text": "Coq theorems (Properties/C05.v, no axioms) over a faithful Gallina transcription of parse_type_structure, the default/TypeScript/Zod visitors, the Zod schema builder and add_types_prefix, for every type of the documented language (unbounded nesting): C05_sound_plain (the text printed at parameter, field and channel sites denotes, under an independent TypeScript type parser with real precedences, exactly the README-table shape of the Rust type) on the complement of three boolean defect classes, each with a computed refutation inside Coq; C05_compositional; C05_parse_faithful (string -> TypeStructure round trip). The model is tied to /repo on every run: every constructor spine to depth 2 (quick) / 3 (thorough), all 14 numeric widths, random types to depth 6 and a malformed-string stream are pushed through the real parsers, visitors, schema builder and the real partial templates, compared string for string with the extracted model at all five sites in both modes, and the extracted specification is applied to the implementation's text.",
+    "level_text": "Coq theorems (Properties/C05.v, no axioms) over a faithful Gallina transcription of parse_type_structure (with the depth-aware find_top_level_comma / split_top_level of the repaired code), the default/TypeScript/Zod visitors, the Zod schema builder and add_types_prefix, for every type of the documented language (unbounded nesting): C05_parse_faithful (string -> TypeStructure round trip for every well-formed type, no class premise), C05_sound_plain (the text printed at parameter, field and channel sites denotes, under an independent TypeScript type parser with real precedences, exactly the README-table shape of the Rust type) on the complement of the one remaining text class (union under []), C05_compositional_*; a computed refutation inside Coq for each of the five remaining classes and a computed positive statement on the witnesses of the three repaired ones. The model is tied to /repo on every run: every constructor spine to depth 2 (quick) / 3 (thorough), all 14 numeric widths, random types to depth 6 and a malformed-string stream are pushed through the real parsers, visitors, schema builder and the real partial templates, compared string for string with the extracted model at all five sites in both modes, and the extracted specification is applied to the implementation's text.",
     "design_ref": "DESIGN.md section 5 C05",
-    "level_note": "Proved in Coq for all types at any depth: plain-mode parameter/field/channel sites and the Zod-mode channel site (C05_sound_plain, C05_compositional_*, C05_parse_faithful). For the namespace-qualified return/event sites (add_types_prefix) and the Zod-mode parameter/field schemas (read back as the inferred type by Spec/C05Spec.zshape) there is no for-all theorem: the statement is kept as C05_sound_full_statement and is machine-checked only on bounded sweeps of the model (C05_sweep_sound_depth1_partial / C05_classes_exact_depth1_partial in the property file: 196 types x 5 sites x 2 modes; the depth-2 sweep over the 3763 types of the quick enumeration is coq/Proofs/C05Sweep2.v, compiled by the thorough tier and kept out of the property's coqchk closure) plus the run-time oracle and correspondence. Event payload type inference (event_parser.rs) and whole-project generation through the CLI are not exercised: the event site starts from EventInfo.payload_type. The two parser classes are slightly broader than the defect (they include types whose comma sits in a discarded Err argument; those cases pass). The TypeScript grammar subset, the Zod reading and the README table are specifications, not proved against tsc / zod / serde_json.",
+    "level_note": "Proved in Coq for all types at any depth: the parser round trip, plain-mode parameter/field/channel sites and the Zod-mode channel site. For the namespace-qualified return/event sites (add_types_prefix) and the Zod-mode parameter/field schemas (read back as the inferred type by Spec/C05Spec.zshape) there is no for-all theorem: the statement is kept as C05_sound_full_statement and is machine-checked only on bounded sweeps of the model (C05_sweep_sound_depth1_partial / C05_classes_exact_depth1_partial in the property file: 196 types x 5 sites x 2 modes; the depth-2 sweep over the 3763 types of the quick enumeration is coq/Proofs/C05Sweep2.v, compiled by the thorough tier and kept out of the property's coqchk closure) plus the run-time oracle and correspondence. Event payload type inference (event_parser.rs) and whole-project generation through the CLI are not exercised: the event site starts from EventInfo.payload_type. Repaired and no longer classes: C05-2, C05-3 (comma splitting), C05-4 (prefix on composite element types). The TypeScript grammar subset, the Zod reading and the README table are specifications, not proved against tsc / zod / serde_json.",
     "technique": "Rocq/Coq proof over hand-written model + correspondence check (extracted OCaml vs Rust harness)"
 }
 
 RULE = ("a case is (Rust type, site, mode); non-trivial = the type has at least one constructor; distinct = distinct "
         "(type, site, mode). Streams: corpus (known-finding witnesses and regression cases), spines (every constructor at "
         "every argument position, nested to depth 2 quick / 3 thorough, leaves String,&str,i32,u64,f64,bool,(),struct,enum), "
-        "numeric (all 14 widths at every position of every depth-1 type), random (depth <= 6), random-clean (depth <= 6, generated outside the two parser classes), raw (malformed ASCII strings, "
+        "numeric (all 14 widths at every position of every depth-1 type), random (depth <= 6), random-clean (depth <= 6, tuple elements and Result Ok arguments without commas), raw (malformed ASCII strings, "
         "unit-level functions only, correspondence only)")
 TRUSTED = [
     "Spec/TsType.v + Model/Render.v lexer: TypeScript type grammar subset with postfix [] above |, generics, tuples, qualified names (no tsc in the sandbox)",
@@ -40,9 +40,6 @@ SITES = ["param", "return", "field", "channel", "event"]
 MODES = ["none", "zod"]
 KF_BY_CLASS = {
     "kf_union_under_seq": "C05-1",
-    "kf_result_ok_has_comma": "C05-2",
-    "kf_tuple_elem_has_comma": "C05-3",
-    "kf_prefix_composite": "C05-4",
     "kf_prefix_unqualified": "C05-5",
     "kf_zod_optional": "C05-6",
     "kf_zod_set": "C05-7",
